@@ -94,13 +94,17 @@ pub struct MeteredUnit {
 }
 
 /// Must be called inside a tokio runtime. Same wiring as
-/// `verif_hooks_bgpin::start`.
+/// `verif_hooks_bgpin::start`. The first `initial_bind_failures` bind
+/// calls fail (set before the unit's task exists, so the very first bind
+/// can be one of them).
 pub fn start(
     unit: BgpTcpIn,
     ingresses: Arc<ingress::Register>,
     unit_name: &str,
+    initial_bind_failures: usize,
 ) -> (MeteredUnit, Link) {
     let faults = Arc::new(Faults::default());
+    faults.bind_failures.store(initial_bind_failures, SeqCst);
     let (gate, mut agent) = Gate::new(0);
     let link = agent.create_link();
     let metrics = Arc::new(BgpTcpInMetrics::new(&gate));
